@@ -81,11 +81,13 @@
      by the edits in front of it) — C11_handles_step, _history, _history_field.  The pre-fix
      code refutes it: C11_in_place_refuted, C11_in_place_relation_refuted. *)
 From V.model Require Import Base RelLex RelParse RelAcc RelGrammar RelEdit RelEditSpec RelEditTree RelLive RelHandles.
+From V.model Require RelLiveAll.
 From V.proofs Require Import BaseP RelEditP RelEditStP RelEditHistP RelEditReparseP RelEditFullP RelEditRefuteP.
-From V.proofs Require Import RelEditTreeP RelEditReplaceP RelEditParsedP RelLiveP RelLiveStepP RelLiveWfP RelLiveNormP RelLiveHistP RelLiveParsedP RelHandlesP.
+From V.proofs Require Import RelEditTreeP RelEditReplaceP RelEditParsedP RelLiveP RelLiveStepP RelLiveWfP RelLiveNormP RelLiveHistP RelLiveParsedP RelHandlesP RelEditBuildP.
+From V.proofs Require RelLiveAllStepP RelLiveAllHistP.
 
-(* the whole property, as a statement about a variant of the code (model/RelEditSpec.v) *)
-Definition C11_partial_note : Prop := C11_full fixed.
+(* the whole property is RelEditSpec.C11_full, a statement about a variant of the code; it is proved
+   for the code as it is in /repo: C11_full_theorem (section 1e) *)
 
 (* 1. Histories (the proved part of C11_full): no panic, refinement, visibility in the root, text *)
 Theorem C11_history_constructed : forall ops f st,
@@ -603,6 +605,99 @@ Proof. exact Rel_of_holds. Qed.
 Check C11_handles_start : forall b st l, holds st (ltree l) -> lwf b l = true ->
   Rel b (snd (lcontent l)) st (mk_hstate (fst (lcontent l)) (h_of st)).
 Print Assumptions C11_handles_start.
+
+(* 1e. From ANY text the reader accepts without error, and operands built by RelationBuilder: C11_full.
+   model/RelLiveAll.v mirrors RelLive.v name by name with LIBERAL parts (RelGrammarAll's aqual / aver /
+   agroup / pgroup: any operator run, versions like 5::, [], <>, [!! x !], <! a>, CR as white space):
+   the editing operations only look at the KINDS of a relation's children, the inside of a part is
+   carried along unchanged.  Content = the record RelEdit.structure reads (relrec), list model =
+   RelEditSpec.astep, operands = what Relation::new / RelationBuilder build (RelEditSpec.brel_tree).
+   Names of that development are written qualified here. *)
+(* every text read without error whose accessors do not panic (structure = Ok: every operator is one of the five) is the tree of a well-formed liberal live layout with that content (through C10_image) *)
+Theorem C11_all_start : forall b s t0 f0, parse_relaxed s b = Ok (t0, 0) -> structure t0 = Ok f0 ->
+  exists l0, RelLiveAll.ltree l0 = t0 /\ RelLiveAll.lwf b l0 = true /\ fst (RelLiveAll.lcontent l0) = f0.
+Proof. exact RelLiveAllHistP.start_layout. Qed.
+Check C11_all_start : forall b s t0 f0, parse_relaxed s b = Ok (t0, 0) -> structure t0 = Ok f0 ->
+  exists l0, RelLiveAll.ltree l0 = t0 /\ RelLiveAll.lwf b l0 = true /\ fst (RelLiveAll.lcontent l0) = f0.
+Print Assumptions C11_all_start.
+
+(* (1) one operation (all twelve; operands_ok = RelEditSpec.wf_operands: any record with identifier texts, built by Relation::new or RelationBuilder) on ANY well-formed liberal layout: no panic, the tree of the abstract operation's layout, well-formed, list model astep on contents, substitution variables and the other entries untouched *)
+Theorem C11_all_step : forall b o l st, RelLiveAll.lwf b l = true -> RelLiveAll.operands_ok o = true ->
+  RelLiveAll.x_in_range (fst (RelLiveAll.lcontent l)) o = true -> holds st (RelLiveAll.ltree l) ->
+  exists l' st', RelLiveAll.a_op o l = Some l' /\
+                 run_ops fixed (compile o) st = Ok st' /\ holds st' (RelLiveAll.ltree l') /\
+                 RelLiveAll.lwf b l' = true /\
+                 RelLiveAll.lcontent l' = (RelLiveAll.xstep (fst (RelLiveAll.lcontent l)) o, snd (RelLiveAll.lcontent l)) /\
+                 RelLiveAllStepP.lentries l' = RelLiveAllStepP.estep (RelLiveAllStepP.lentries l) o.
+Proof. exact RelLiveAllHistP.live_step. Qed.
+Check C11_all_step : forall b o l st, RelLiveAll.lwf b l = true -> RelLiveAll.operands_ok o = true ->
+  RelLiveAll.x_in_range (fst (RelLiveAll.lcontent l)) o = true -> holds st (RelLiveAll.ltree l) ->
+  exists l' st', RelLiveAll.a_op o l = Some l' /\
+                 run_ops fixed (compile o) st = Ok st' /\ holds st' (RelLiveAll.ltree l') /\
+                 RelLiveAll.lwf b l' = true /\
+                 RelLiveAll.lcontent l' = (RelLiveAll.xstep (fst (RelLiveAll.lcontent l)) o, snd (RelLiveAll.lcontent l)) /\
+                 RelLiveAllStepP.lentries l' = RelLiveAllStepP.estep (RelLiveAllStepP.lentries l) o.
+Print Assumptions C11_all_step.
+
+(* (2) histories *)
+Theorem C11_all_history : forall b ops l st, RelLiveAll.lwf b l = true -> forallb RelLiveAll.operands_ok ops = true ->
+  hist_in_range (fst (RelLiveAll.lcontent l)) ops = true -> holds st (RelLiveAll.ltree l) ->
+  exists l' st', RelLiveAll.a_ops ops l = Some l' /\
+                 run_ops fixed (compile_all ops) st = Ok st' /\ holds st' (RelLiveAll.ltree l') /\
+                 RelLiveAll.lwf b l' = true /\
+                 RelLiveAll.lcontent l' = (fold_left astep ops (fst (RelLiveAll.lcontent l)), snd (RelLiveAll.lcontent l)).
+Proof. exact RelLiveAllHistP.live_history. Qed.
+Check C11_all_history : forall b ops l st, RelLiveAll.lwf b l = true -> forallb RelLiveAll.operands_ok ops = true ->
+  hist_in_range (fst (RelLiveAll.lcontent l)) ops = true -> holds st (RelLiveAll.ltree l) ->
+  exists l' st', RelLiveAll.a_ops ops l = Some l' /\
+                 run_ops fixed (compile_all ops) st = Ok st' /\ holds st' (RelLiveAll.ltree l') /\
+                 RelLiveAll.lwf b l' = true /\
+                 RelLiveAll.lcontent l' = (fold_left astep ops (fst (RelLiveAll.lcontent l)), snd (RelLiveAll.lcontent l)).
+Print Assumptions C11_all_history.
+
+(* (3) the re-read through C10_image_sound: the text of a well-formed liberal live layout is the rendering of a liberal layout (RelLiveAll.norm: white space that an edit left in several tokens or in another node is one slot again; the token list is a lexer output), so it is read without error, to a tree whose structure is the content *)
+Theorem C11_all_reread : forall b l, RelLiveAll.lwf b l = true ->
+  exists t'', parse_relaxed (text (RelLiveAll.ltree l)) b = Ok (t'', 0) /\ text t'' = text (RelLiveAll.ltree l) /\
+              structure t'' = Ok (fst (RelLiveAll.lcontent l)) /\ substvar_texts t'' = snd (RelLiveAll.lcontent l).
+Proof. exact RelLiveAllHistP.live_reread. Qed.
+Check C11_all_reread : forall b l, RelLiveAll.lwf b l = true ->
+  exists t'', parse_relaxed (text (RelLiveAll.ltree l)) b = Ok (t'', 0) /\ text t'' = text (RelLiveAll.ltree l) /\
+              structure t'' = Ok (fst (RelLiveAll.lcontent l)) /\ substvar_texts t'' = snd (RelLiveAll.lcontent l).
+Print Assumptions C11_all_reread.
+
+(* the content of a layout is what the accessors read from its tree *)
+Theorem C11_all_structure : forall b l, RelLiveAll.lwf b l = true ->
+  structure (RelLiveAll.ltree l) = Ok (fst (RelLiveAll.lcontent l)) /\ substvar_texts (RelLiveAll.ltree l) = snd (RelLiveAll.lcontent l).
+Proof. exact RelLiveAllHistP.structure_live. Qed.
+Check C11_all_structure : forall b l, RelLiveAll.lwf b l = true ->
+  structure (RelLiveAll.ltree l) = Ok (fst (RelLiveAll.lcontent l)) /\ substvar_texts (RelLiveAll.ltree l) = snd (RelLiveAll.lcontent l).
+Print Assumptions C11_all_structure.
+
+(* layer A with operands built by RelationBuilder, on ANY tree: the machine computes bt_op (operand trees RelEditSpec.brel_tree / bentry_tree) *)
+Theorem C11_all_machine_step : forall o T T' st,
+  is_node T = true -> ereplace_ready o T -> holds st T -> bt_op o T = Ok T' ->
+  exists st', run_ops fixed (compile o) st = Ok st' /\ holds st' T'.
+Proof. exact RelEditBuildP.bop_step_tree. Qed.
+Check C11_all_machine_step : forall o T T' st,
+  is_node T = true -> ereplace_ready o T -> holds st T -> bt_op o T = Ok T' ->
+  exists st', run_ops fixed (compile o) st = Ok st' /\ holds st' T'.
+Print Assumptions C11_all_machine_step.
+
+(* C11, IN FULL (RelEditSpec.C11_full, for the code as it is in /repo): from any text that parses without error and whose accessors do not panic, every in-range history with well-formed operands runs without panic, the root holds exactly the list model's field, the substitution variables keep their text, and the printed text parses again without error to that same field *)
+Theorem C11_full_theorem : C11_full fixed.
+Proof. exact RelLiveAllHistP.C11_full_fixed. Qed.
+Check C11_full_theorem : C11_full fixed.
+Print Assumptions C11_full_theorem.
+
+(* the one correction of the STATEMENT: compile builds an operand record that has architectures or profiles but no qualifier with RelationBuilder (rel_spec); as first written it used Relation::new for every record without qualifier, which drops them *)
+Theorem C11_builder_operand_witness : 
+  run_text fixed INew [ONewEntry 1 (ESFromVec [RSNew [97]%N None]); OPush 1] = Ok [97]%N /\
+  run_text fixed INew (compile (APush [(mk_relrec [97]%N None None (Some [[97; 109; 100; 54; 52]%N]) [])])) = Ok [97; 32; 91; 97; 109; 100; 54; 52; 93]%N.
+Proof. exact (conj builder_operand_old builder_operand_new). Qed.
+Check C11_builder_operand_witness : 
+  run_text fixed INew [ONewEntry 1 (ESFromVec [RSNew [97]%N None]); OPush 1] = Ok [97]%N /\
+  run_text fixed INew (compile (APush [(mk_relrec [97]%N None None (Some [[97; 109; 100; 54; 52]%N]) [])])) = Ok [97; 32; 91; 97; 109; 100; 54; 52; 93]%N.
+Print Assumptions C11_builder_operand_witness.
 
 (* 2. Constructor-built fields read back as the list they were built from, and print canonically *)
 Theorem C11_structure_constructed : forall f, plain_field f = true -> structure (cfield_tree f) = Ok f.
